@@ -104,7 +104,7 @@ def _job(ctx, first, maxlen, timeout, kfs=()):
             return f'the generated module does not compile: {e}'
         twin = ('z*' if is_pattern(s) else 'zz') if ctx != 'title' else 'Zz'
         import re as _re
-        if ctx in ('criterion', 'countifs2', 'gt_amp') and _re.fullmatch(r'(>=|<=|<>|>|<|=)(\d+(\.\d+)?(e-?\d+)?)?', s):
+        if ctx in ('criterion', 'countifs2', 'gt_amp') and _re.fullmatch(r'(>=|<=|<>|>|<|=)(-?\d+(\.\d+)?(e-?\d+)?)?', s):
             twin = s        # a complete operator[+number] criterion is *meant* to become a comparison: only compile / canary checks apply
         if (twin, safety) not in cache:
             gt = generate(twin, safety)
